@@ -262,6 +262,8 @@ Definition shape_ok (gp : list gentry) (b : buffered) : Prop :=
 (* a claim is empty (manual run) or is literally one command's parked entry list, ticket and system included *)
 Definition claim_ok (gp : list gentry) (c : gentry) : Prop := snd c = [] \/ In c gp.
 Definition ptickets (gp : list gentry) : list N := map (fun x => fst (fst x)) gp.
+(* tickets of the claims that took something out of the trackers (a manual run claims nothing) *)
+Definition ctickets (gc : list gentry) : list N := flat_map (fun c => match snd c with [] => [] | _ => [fst (fst c)] end) gc.
 
 Record GInv (all : list buffered) (w : world) : Prop := {
   g_se : forall k s d, In (k, s, d) (prepared (tr_se w)) -> parked k s (PiSe d) w;
@@ -272,6 +274,8 @@ Record GInv (all : list buffered) (w : world) : Prop := {
   g_uniq : NoDup (ptickets (g_prep w));
   g_shape : Forall (shape_ok (g_prep w)) all;
   g_exact : Forall (claim_ok (g_prep w)) (g_claim w);
+  (* every parked command has been claimed by exactly one setup, or is still pending *)
+  g_part : Permutation (ptickets (g_prep w)) (ctickets (g_claim w) ++ flat_map tk_of all);
 }.
 
 Definition gview (w : world) :=
@@ -282,17 +286,18 @@ Lemma gview_kview w w' : kview w' = kview w -> gview w' = gview w.
 Proof. intros H. apply gview_kview0, kview_kview0, H. Qed.
 Lemma GInv_gview all w w' : gview w' = gview w -> GInv all w -> GInv all w'.
 Proof.
-  unfold gview. intros H [G1 G2 G3 G4 G5 G6 G7 G8]. inversion H as [[E1 E2 E3 E4 E5 E6 E7]].
+  unfold gview. intros H [G1 G2 G3 G4 G5 G6 G7 G8 G9]. inversion H as [[E1 E2 E3 E4 E5 E6 E7]].
   constructor; unfold parked in *; rewrite ?E1, ?E2, ?E3, ?E4, ?E5, ?E6, ?E7; assumption.
 Qed.
 Lemma GInv_kview all w w' : kview w' = kview w -> GInv all w -> GInv all w'.
 Proof. intros H. apply GInv_gview. apply gview_kview. exact H. Qed.
 Lemma GInv_perm all all' w : Permutation all all' -> GInv all w -> GInv all' w.
-Proof. intros HP [G1 G2 G3 G4 G5 G6 G7 G8]. constructor; try assumption. eapply Permutation_Forall; eauto. Qed.
-Lemma GInv_tail b rest w : GInv (b :: rest) w -> GInv rest w.
-Proof. intros [G1 G2 G3 G4 G5 G6 G7 G8]. constructor; try assumption. inversion G7; assumption. Qed.
+Proof.
+  intros HP [G1 G2 G3 G4 G5 G6 G7 G8 G9]. constructor; try assumption; [eapply Permutation_Forall; eauto|].
+  eapply Permutation_trans; [exact G9|]. apply Permutation_app_head. apply Permutation_flat_map. exact HP.
+Qed.
 Lemma GInv_add_default t all w : GInv all w -> GInv (mkBuf t SuDefault ClDefault :: all) w.
-Proof. intros [G1 G2 G3 G4 G5 G6 G7 G8]. constructor; try assumption. constructor; [exact I|exact G7]. Qed.
+Proof. intros [G1 G2 G3 G4 G5 G6 G7 G8 G9]. constructor; try assumption. constructor; [exact I|exact G7]. Qed.
 
 Lemma shape_ok_mono gp x b : shape_ok gp b -> shape_ok (gp ++ [x]) b.
 Proof.
@@ -317,10 +322,10 @@ Lemma GInv_park k t items su cl all w w1 :
   (forall k' s x src rt, In (k', s, (x, src, rt)) (prepared (tr_er w1)) -> In (k', s, (x, src, rt)) (prepared (tr_er w)) \/ (k' = k /\ s = t /\ In (PiEr src rt) items)) ->
   (forall k' s src h, In (k', s, (src, h)) (prepared (tr_de w1)) -> In (k', s, (src, h)) (prepared (tr_de w)) \/ (k' = k /\ s = t /\ In (PiDe src) items)) ->
   (forall k' s d, In (k', s, d) (prepared (tr_ev w1)) -> In (k', s, d) (prepared (tr_ev w)) \/ (k' = k /\ s = t /\ In (PiEv d) items)) ->
-  shape_ok (g_prep w1) (mkBuf t su cl) ->
+  shape_ok (g_prep w1) (mkBuf t su cl) -> tk_of (mkBuf t su cl) = [k] ->
   GInv all w -> GInv (mkBuf t su cl :: all) w1.
 Proof.
-  intros Hk Hc Hp Hcl Hse Her Hde Hev Hsh [G1 G2 G3 G4 G5 G6 G7 G8].
+  intros Hk Hc Hp Hcl Hse Her Hde Hev Hsh Htk [G1 G2 G3 G4 G5 G6 G7 G8 G9].
   assert (Hmono : forall k' s it, parked k' s it w -> parked k' s it w1).
   { intros k' s it (items' & Hi & Hit). exists items'. split; [rewrite Hp; apply in_or_app; left; exact Hi|exact Hit]. }
   assert (Hnew : forall it, In it items -> parked k t it w1).
@@ -336,6 +341,9 @@ Proof.
     apply NoDup_app_snoc; [exact G6|]. intros Hin. apply G5 in Hin. lia.
   - constructor; [exact Hsh|]. rewrite Hp. eapply Forall_impl; [|exact G7]. intros b. apply shape_ok_mono.
   - rewrite Hcl, Hp. eapply Forall_impl; [|exact G8]. intros c. apply claim_ok_mono.
+  - rewrite Hcl, Hp. unfold ptickets. rewrite map_app. cbn [map fst flat_map]. rewrite Htk. cbn [app].
+    eapply Permutation_trans; [apply Permutation_app_tail; exact G9|]. rewrite <- app_assoc.
+    apply Permutation_app_head. apply Permutation_sym, Permutation_cons_append.
 Qed.
 
 (* a setup removes entries from the trackers and records one claim *)
@@ -343,9 +351,9 @@ Lemma GInv_claimed c b rest w w0 :
   ticket_ctr w0 = ticket_ctr w -> g_prep w0 = g_prep w -> g_claim w0 = g_claim w ++ [c] ->
   incl (prepared (tr_se w0)) (prepared (tr_se w)) -> incl (prepared (tr_er w0)) (prepared (tr_er w)) ->
   incl (prepared (tr_de w0)) (prepared (tr_de w)) -> incl (prepared (tr_ev w0)) (prepared (tr_ev w)) ->
-  claim_ok (g_prep w) c -> GInv (b :: rest) w -> GInv rest w0.
+  claim_ok (g_prep w) c -> ctickets [c] = tk_of b -> GInv (b :: rest) w -> GInv rest w0.
 Proof.
-  intros Hc Hp Hcl I1 I2 I3 I4 Hok [G1 G2 G3 G4 G5 G6 G7 G8].
+  intros Hc Hp Hcl I1 I2 I3 I4 Hok Hct [G1 G2 G3 G4 G5 G6 G7 G8 G9].
   constructor; unfold parked in *; rewrite ?Hc, ?Hp, ?Hcl.
   - intros k s d Hin. apply G1, I1, Hin.
   - intros k s x src rt Hin. eapply G2, I2, Hin.
@@ -355,6 +363,7 @@ Proof.
   - exact G6.
   - inversion G7; assumption.
   - apply Forall_app. split; [exact G8|]. constructor; [exact Hok|constructor].
+  - unfold ctickets in *. rewrite flat_map_app. cbn [flat_map] in G9. rewrite <- Hct in G9. rewrite <- app_assoc. exact G9.
 Qed.
 
 Lemma nodup_ticket_inj (gp : list gentry) x y : NoDup (ptickets gp) -> In x gp -> In y gp -> fst (fst x) = fst (fst y) -> x = y.
@@ -390,21 +399,21 @@ Qed.
 
 Lemma G_setup b rest w w0 : run_setup (b_setup b) (b_sys b) w = Some w0 -> GInv (b :: rest) w -> GInv rest w0.
 Proof.
-  intros E HG. pose proof HG as [G1 G2 G3 G4 G5 G6 G7 G8]. inversion G7 as [|? ? Hsh _]; subst. clear G7.
+  intros E HG. pose proof HG as [G1 G2 G3 G4 G5 G6 G7 G8 G9]. inversion G7 as [|? ? Hsh _]; subst. clear G7.
   destruct b as [t su cl]. unfold shape_ok in Hsh. cbn [b_setup b_sys] in *.
   destruct su; cbn [run_setup] in E.
-  - inversion E; subst. eapply (GInv_claimed (0, t, []) _ rest w); try reflexivity; try apply incl_refl; [left; reflexivity|exact HG].
+  - inversion E; subst. eapply (GInv_claimed (0, t, []) (mkBuf t SuDefault cl) rest w); try reflexivity; try apply incl_refl; [left; reflexivity|exact HG].
   - destruct (trk_start true k t (tr_se w)) as [t'|] eqn:ES; inversion E; subst. clear E. destruct (trk_start_in _ _ _ _ _ ES) as (Hin & Hincl & _).
     destruct Hsh as (d & Hd). pose proof (parked_exact _ _ _ _ _ G6 (G1 _ _ _ Hin) Hd) as Hit. destruct Hit as [Hit|[]]. inversion Hit; subst.
-    eapply (GInv_claimed (k, t, [PiSe (cur t')]) _ rest w); try reflexivity; try apply incl_refl; [exact Hincl|right; exact Hd|exact HG].
+    eapply (GInv_claimed (k, t, [PiSe (cur t')]) (mkBuf t (SuSysEvent k) cl) rest w); try reflexivity; try apply incl_refl; [exact Hincl|right; exact Hd|exact HG].
   - destruct (trk_start true k t (tr_er w)) as [t'|] eqn:ES; inversion E; subst. clear E. destruct (trk_start_in _ _ _ _ _ ES) as (Hin & Hincl & _).
     destruct Hsh as (src & rt & Hd). destruct (cur t') as [[x src'] rt'] eqn:EC.
     pose proof (parked_exact _ _ _ _ _ G6 (G2 _ _ _ _ _ Hin) Hd) as Hit. destruct Hit as [Hit|[]]. inversion Hit; subst. cbn [fst snd].
-    eapply (GInv_claimed (k, t, [PiEr src' rt']) _ rest w); try reflexivity; try apply incl_refl; [exact Hincl|right; exact Hd|exact HG].
+    eapply (GInv_claimed (k, t, [PiEr src' rt']) (mkBuf t (SuEntity k) cl) rest w); try reflexivity; try apply incl_refl; [exact Hincl|right; exact Hd|exact HG].
   - destruct (trk_start false k t (tr_de w)) as [t'|] eqn:ES; inversion E; subst. clear E. destruct (trk_start_in _ _ _ _ _ ES) as (Hin & Hincl & _).
     destruct Hsh as (src & Hd). destruct (cur t') as [src' h] eqn:EC.
     pose proof (parked_exact _ _ _ _ _ G6 (G3 _ _ _ _ Hin) Hd) as Hit. destruct Hit as [Hit|[]]. inversion Hit; subst. cbn [fst snd].
-    eapply (GInv_claimed (k, t, [PiDe src']) _ rest w); try reflexivity; try apply incl_refl; [exact Hincl|right; exact Hd|exact HG].
+    eapply (GInv_claimed (k, t, [PiDe src']) (mkBuf t (SuDespawn k) cl) rest w); try reflexivity; try apply incl_refl; [exact Hincl|right; exact Hd|exact HG].
   - destruct (trk_start true k t (tr_er w)) as [t'|] eqn:ES; [|discriminate E].
     change (tr_ev (w <| tr_er := t' |>)) with (tr_ev w) in E.
     destruct (trk_start true k t (tr_ev w)) as [t''|] eqn:ES'; inversion E; subst. clear E.
@@ -412,10 +421,10 @@ Proof.
     destruct Hsh as (tgt & d & Hd). destruct (cur t') as [[x src'] rt'] eqn:EC.
     pose proof (parked_exact _ _ _ _ _ G6 (G2 _ _ _ _ _ Hin) Hd) as Hit. destruct Hit as [Hit|[Hit|[]]]; [|discriminate Hit]. inversion Hit; subst.
     pose proof (parked_exact _ _ _ _ _ G6 (G4 _ _ _ Hin') Hd) as Hit'. destruct Hit' as [Hit'|[Hit'|[]]]; [discriminate Hit'|]. inversion Hit'; subst. cbn [fst snd].
-    eapply (GInv_claimed (k, t, [PiEr src' (REvent UNIT_TY); PiEv (cur t'')]) _ rest w); try reflexivity; try apply incl_refl; [exact Hincl|exact Hincl'|right; exact Hd|exact HG].
+    eapply (GInv_claimed (k, t, [PiEr src' (REvent UNIT_TY); PiEv (cur t'')]) (mkBuf t (SuEntityEvent k) cl) rest w); try reflexivity; try apply incl_refl; [exact Hincl|exact Hincl'|right; exact Hd|exact HG].
   - destruct (trk_start true k t (tr_ev w)) as [t'|] eqn:ES; inversion E; subst. clear E. destruct (trk_start_in _ _ _ _ _ ES) as (Hin & Hincl & _).
     destruct Hsh as (d & Hd). pose proof (parked_exact _ _ _ _ _ G6 (G4 _ _ _ Hin) Hd) as Hit. destruct Hit as [Hit|[]]. inversion Hit; subst.
-    eapply (GInv_claimed (k, t, [PiEv (cur t')]) _ rest w); try reflexivity; try apply incl_refl; [exact Hincl|right; exact Hd|exact HG].
+    eapply (GInv_claimed (k, t, [PiEv (cur t')]) (mkBuf t (SuBroadcast k) cl) rest w); try reflexivity; try apply incl_refl; [exact Hincl|right; exact Hd|exact HG].
 Qed.
 
 Lemma gview_run_cleanup cl w : gview (run_cleanup cl w) = gview w.
